@@ -8027,7 +8027,7 @@ func E11SignedMagnitude(c *core.Ctx, r *core.Report) {
 			key := fmt.Sprintf("%s|ordering comparison of an orientation-signed value #%d", fname, ord)
 			isZero := func(e ast.Expr) bool {
 				if tv, ok := info.Types[e]; ok && tv.Value != nil {
-					return constant.Sign(tv.Value) == 0
+					return numSign(tv.Value) == 0
 				}
 				return false
 			}
@@ -9524,7 +9524,7 @@ func E11AlignedWidthExcludesEOL(c *core.Ctx, r *core.Report) {
 			for _, st := range is.Body.List {
 				if as, ok := st.(*ast.AssignStmt); ok && as.Tok == token.ASSIGN && len(as.Lhs) == 1 && len(as.Rhs) == 1 {
 					if id, ok := as.Lhs[0].(*ast.Ident); ok {
-						if tv, ok := info.Types[as.Rhs[0]]; ok && tv.Value != nil && constant.Sign(tv.Value) == 0 {
+						if tv, ok := info.Types[as.Rhs[0]]; ok && tv.Value != nil && (tv.Value.Kind() == constant.Int || tv.Value.Kind() == constant.Float) && constant.Sign(tv.Value) == 0 {
 							if b, ok := core.ObjOf(info, id).Type().Underlying().(*types.Basic); ok && b.Info()&types.IsFloat != 0 {
 								reset[core.ObjOf(info, id)] = true
 							}
@@ -11158,5 +11158,197 @@ func E11CutsSortedBeforeUse(c *core.Ctx, r *core.Report) {
 		r.OK("E11.cuts-sorted-before-use", key, c.Pos(fd.Body.List[sortIdx].Pos()), fmt.Sprintf("%d element reads, all after the sort", reads))
 	} else {
 		r.Fail("E11.cuts-sorted-before-use", key, c.Pos(early.Pos()), fmt.Sprintf("`%s` is read before the cut list is sorted: it is the first element as the caller gave it, not the smallest. A decision taken on it (dropping a leading 0) misses a 0 given later in the list, which then sorts to the front; the walk's index never moves past a cut that is not greater than the position reached, every cut is dropped and the path comes back in one piece", c.Src(early)))
+	}
+}
+
+// E11NoWrapWidthSkipsLeadingGlue: the hand-built breakpoints of unwrapped text measure a line as Linebreak does.
+func E11NoWrapWidthSkipsLeadingGlue(c *core.Ctx, r *core.Report) {
+	r.Rule("E11.nowrap-width-skips-leading-glue", "with width 0 RichText.ToText builds the breakpoints itself: a loop over the items that appends a Breakpoint at every forced break with the accumulated width. The white space that directly follows a break is skipped when the line is built and Linebreak does not count it into the next line, so the loop does not either: the accumulating `w += item.Width` is reached for a glue item only when a boolean that is set where a breakpoint is appended and cleared at a box item is false. Otherwise right-aligned and centred lines that start with white space after a newline are displaced by that white space")
+	p := c.MustPkg("")
+	info := p.TypesInfo
+	fd := core.MustFuncDecl(p, "RichText.ToText")
+	r.Func("canvas.RichText.ToText")
+	key := "canvas.RichText.ToText|unwrapped line width leaves out the white space after a break"
+	// the loop: ranges over []text.Item and appends &text.Breakpoint{…}
+	var loop *ast.RangeStmt
+	ast.Inspect(fd.Body, func(m ast.Node) bool {
+		rs, ok := m.(*ast.RangeStmt)
+		if !ok || loop != nil {
+			return true
+		}
+		has := false
+		ast.Inspect(rs.Body, func(k ast.Node) bool {
+			if cl, ok := k.(*ast.CompositeLit); ok {
+				if t := info.TypeOf(cl); t != nil && strings.HasSuffix(t.String(), "text.Breakpoint") {
+					has = true
+				}
+			}
+			return true
+		})
+		if has {
+			loop = rs
+		}
+		return true
+	})
+	if loop == nil {
+		r.Fail("E11.nowrap-width-skips-leading-glue", key, c.Pos(fd.Pos()), "the loop that builds the breakpoints of unwrapped text was not found")
+		return
+	}
+	r.Count("E11.nowrap-width-skips-leading-glue", 1)
+	// the accumulator statement and the conditions on the way to it
+	var acc *ast.AssignStmt
+	var conds []ast.Expr
+	var walk func(n ast.Node, cs []ast.Expr)
+	walk = func(n ast.Node, cs []ast.Expr) {
+		switch x := n.(type) {
+		case *ast.BlockStmt:
+			for _, s := range x.List {
+				walk(s, cs)
+			}
+		case *ast.IfStmt:
+			walk(x.Body, append(append([]ast.Expr{}, cs...), x.Cond))
+			if x.Else != nil {
+				walk(x.Else, cs)
+			}
+		case *ast.AssignStmt:
+			if x.Tok == token.ADD_ASSIGN && len(x.Rhs) == 1 && acc == nil {
+				if se, ok := core.Unparen(x.Rhs[0]).(*ast.SelectorExpr); ok && se.Sel.Name == "Width" {
+					acc, conds = x, cs
+				}
+			}
+		}
+	}
+	walk(loop.Body, nil)
+	if acc == nil {
+		r.Fail("E11.nowrap-width-skips-leading-glue", key, c.Pos(loop.Pos()), "no `w += item.Width` in the loop")
+		return
+	}
+	// a boolean local mentioned in the conditions, set true next to the append and false under a BoxType test
+	good := ""
+	undecided := false
+	for _, cnd := range conds {
+		ast.Inspect(cnd, func(k ast.Node) bool {
+			id, ok := k.(*ast.Ident)
+			if !ok {
+				return true
+			}
+			o, ok := core.ObjOf(info, id).(*types.Var)
+			if !ok {
+				return true
+			}
+			if b, ok := o.Type().Underlying().(*types.Basic); !ok || b.Kind() != types.Bool {
+				return true
+			}
+			setAtBreak, clearedAtBox := false, false
+			var visit func(n ast.Node, underBox bool, withAppend bool)
+			visit = func(n ast.Node, underBox bool, withAppend bool) {
+				switch x := n.(type) {
+				case *ast.BlockStmt:
+					app := false
+					for _, s := range x.List {
+						ast.Inspect(s, func(q ast.Node) bool {
+							if cl, ok := q.(*ast.CompositeLit); ok {
+								if t := info.TypeOf(cl); t != nil && strings.HasSuffix(t.String(), "text.Breakpoint") {
+									app = true
+								}
+							}
+							return true
+						})
+					}
+					for _, s := range x.List {
+						visit(s, underBox, app)
+					}
+				case *ast.IfStmt:
+					box := strings.Contains(types.ExprString(x.Cond), "BoxType") && !strings.Contains(types.ExprString(x.Cond), "!=")
+					visit(x.Body, underBox || box, false)
+					if x.Else != nil {
+						visit(x.Else, underBox, false)
+					}
+				case *ast.AssignStmt:
+					if len(x.Lhs) == 1 && len(x.Rhs) == 1 {
+						if lid, ok := x.Lhs[0].(*ast.Ident); ok && core.ObjOf(info, lid) == o {
+							if rid, ok := core.Unparen(x.Rhs[0]).(*ast.Ident); ok {
+								if rid.Name == "true" && withAppend {
+									setAtBreak = true
+								}
+								if rid.Name == "false" && underBox {
+									clearedAtBox = true
+								}
+							}
+						}
+					}
+				}
+			}
+			visit(loop.Body, false, false)
+			if setAtBreak && clearedAtBox {
+				// with the flag set and the item a glue, the conditions on the way to the accumulation must not all hold
+				var eval func(e ast.Expr) (bool, bool)
+				eval = func(e ast.Expr) (bool, bool) {
+					e = core.Unparen(e)
+					switch x := e.(type) {
+					case *ast.Ident:
+						if core.ObjOf(info, x) == o {
+							return true, true
+						}
+					case *ast.UnaryExpr:
+						if x.Op == token.NOT {
+							v, ok := eval(x.X)
+							return !v, ok
+						}
+					case *ast.BinaryExpr:
+						switch x.Op {
+						case token.LAND, token.LOR:
+							a, okA := eval(x.X)
+							b, okB := eval(x.Y)
+							if x.Op == token.LAND {
+								if (okA && !a) || (okB && !b) {
+									return false, true
+								}
+								return a && b, okA && okB
+							}
+							if (okA && a) || (okB && b) {
+								return true, true
+							}
+							return a || b, okA && okB
+						case token.EQL, token.NEQ:
+							for _, side := range []ast.Expr{x.X, x.Y} {
+								kind := types.ExprString(side)
+								for _, nm := range []string{"GlueType", "BoxType", "PenaltyType"} {
+									if strings.HasSuffix(kind, nm) {
+										isGlue := nm == "GlueType"
+										return isGlue == (x.Op == token.EQL), true
+									}
+								}
+							}
+						}
+					}
+					return false, false
+				}
+				all, decided := true, true
+				for _, cn := range conds {
+					v, ok := eval(cn)
+					if !ok {
+						decided = false
+					} else if !v {
+						all = false
+					}
+				}
+				if !all {
+					good = o.Name()
+				} else if !decided {
+					undecided = true
+				}
+			}
+			return true
+		})
+	}
+	if undecided && good == "" {
+		r.Fail("E11.nowrap-width-skips-leading-glue", key, c.Pos(acc.Pos()), "the conditions on the way to the accumulation could not be evaluated for a glue item directly after a break; the rule cannot decide this form")
+		return
+	}
+	if good != "" {
+		r.OK("E11.nowrap-width-skips-leading-glue", key, c.Pos(acc.Pos()), "guarded by "+good)
+	} else {
+		r.Fail("E11.nowrap-width-skips-leading-glue", key, c.Pos(acc.Pos()), fmt.Sprintf("`%s` adds every glue item to the line, also the white space that directly follows a forced break (no flag that is set where the breakpoint is appended and cleared at the next box guards it): that white space is skipped when the line is built and Linebreak leaves it out, so a right-aligned line starting with white space after a newline ends short of the edge by its width", c.Src(acc)))
 	}
 }
